@@ -108,6 +108,12 @@ def judge(case, rep, S):
             rep.viol("raised", "get_phasePlotRegion raised %s: %s for (n+,n-,N)=%s (%s)" % (type(e).__name__, e, case["c"], seq[:80]),
                      sig={"expected": want})
             continue
+        try:
+            again = obj.get_phasePlotRegion()
+        except Exception as e:
+            again = "raised " + type(e).__name__
+        if again != got:
+            rep.viol("region_not_repeatable", "get_phasePlotRegion answered %r and then %r on one object (%s)" % (got, again, case["c"]))
         if got != want or isinstance(got, bool):
             rep.viol("region", "get_phasePlotRegion=%r but thresholds give %d for (n+,n-,N)=%s FCR=%s NCPR=%s (%s)" % (
                 got, want, case["c"], fcr, Fraction(a - b, N), seq[:80]), sig={"expected": want, "got": repr(got)})
